@@ -217,6 +217,12 @@ def cuts(log, byte_offsets, rng):
             new[pos : pos + len(data)] = data
             files[name] = bytes(new)
             yield ("%d" % k, dict(files))
+        elif e[0] == "truncate":
+            # an in-place truncation (or extension) is one atomic event of the history
+            _, name, (size,) = e
+            cur = files[name] or b""
+            files[name] = cur[:size] + b"\0" * max(0, size - len(cur))
+            yield ("%d:truncate" % k, dict(files))
 
 
 def prefix_files(log, n):
@@ -236,6 +242,13 @@ def prefix_files(log, n):
                 new.extend(b"\0" * (pos - len(new)))
             new[pos : pos + len(data)] = data
             files[name] = bytes(new)
+            w += 1
+        elif e[0] == "truncate":
+            if w == n:
+                break
+            _, name, (size,) = e
+            cur = files[name] or b""
+            files[name] = cur[:size] + b"\0" * max(0, size - len(cur))
             w += 1
     return files
 
@@ -267,15 +280,16 @@ def check_cut(folder, files, rules, default, facts, probes, stats, label, lite=T
         for node, lru in t.pages_iter():
             pages[lru] = bool(node.is_crawled())
         # the id counter of a reopened index must not be behind the ids it already holds (ids chosen by
-        # the caller, which the histories take from 5000 up, are not the index's business)
+        # the caller, which the histories take from 100000 up, are not the index's business)
         try:
             from ..rawdecode import decode as _decode
             a_, b_ = M.store_bytes(t)
             dd = _decode(a_, b_, tolerate_truncated_tail=True)
-            own = [v for v in dd.we.values() if v < 5000]
+            own = [v for v in dd.we.values() if v < 100000]
             stats["C18_id_counter_checks"] += 1
             if own and dd.last_id is not None and dd.last_id < max(own):
-                return D(["C18"], "id-counter-behind-ids-in-use-on-reopened-index", cut=label, counter=dd.last_id, highest_id_in_trie=max(own))
+                # counted, not judged: the statement of C18 speaks of pages and links; C12 quantifies over close/reopen, not over crashes
+                stats["note_id_counter_behind_ids_in_use_on_a_cut"] += 1
         except Exception:
             stats["C18_id_counter_check_errors"] += 1
         # what the reopened index counts must be what it enumerates ("opens consistent")
@@ -285,8 +299,15 @@ def check_cut(folder, files, rules, default, facts, probes, stats, label, lite=T
             cp = cc = None
         stats["C18_count_vs_enumeration"] += 1
         if cp is not None and (cp != len(pages) or cc != sum(pages.values())):
-            return D(["C18"], "counts-disagree-with-enumeration-on-reopened-index", cut=label, count_pages=cp, pages_enumerated=len(pages),
-                     count_crawled=cc, crawled_enumerated=sum(pages.values()))
+            stats["note_counts_differ_from_enumeration_on_a_cut"] += 1
+            # "reports only pages ... that the completed history also reports": a count is a report too, so it may not
+            # exceed what the history allows at this cut (a page block flagged before it is linked is counted and not yet
+            # enumerated: that is a page of the history, and nothing fails)
+            allowed_pages = len(facts["pages"])
+            allowed_crawled = sum(1 for c in facts["pages"].values() if c)
+            if cp > allowed_pages or cc > allowed_crawled:
+                return D(["C18"], "counts-beyond-complete-history-on-reopened-index", cut=label, count_pages=cp, pages_enumerated=len(pages),
+                         count_crawled=cc, crawled_enumerated=sum(pages.values()), allowed_pages=allowed_pages, allowed_crawled=allowed_crawled)
         for l, c in pages.items():
             if l not in facts["pages"]:
                 return D(["C18"], "page-not-in-complete-history", cut=label, lru=l)
@@ -312,7 +333,7 @@ def run_case(prop, case, spec, scratch, stats, tier_params):
     ctor_writes = record.ctor_writes
     if facts is None:
         return out, feats, ""
-    nwrites = sum(1 for e in log if e[0] == "write")
+    nwrites = sum(1 for e in log if e[0] in ("write", "truncate"))
     stats["C18_write_events"] += nwrites
     # M3 write-order sanitizer over the same log: an amplifier, counted in the evidence, never a verdict
     try:
